@@ -17,7 +17,7 @@ for pid in props:
         'evidence_file': 'evidence/%s.json' % pid,
         'replay_cmd_template': './check %s --replay {path}' % pid,
         'engine': 'lean-proof+correspondence',
-        'level_claimed': {'category': 'proof', 'text': c['text'], 'design_ref': c.get('design_ref', 'DESIGN.md §6 ' + pid)},
+        'level_claimed': {'category': 'proof', 'text': c['text'] + getattr(md, 'ADDENDA', {}).get(pid, ''), 'design_ref': c.get('design_ref', 'DESIGN.md §6 ' + pid)},
         'level_note': c['note'],
         'technique': c['technique'],
     })
